@@ -94,8 +94,18 @@ def weighted(rng, E, directed, kind=None):
     return [(i, j, w) for (i, j, w) in t]
 
 
-def random_case(rng, nmax, kinds=('undirected', 'directed', 'bipartite')):
+def tiny_units(rng, kind, nr, t):
+    """The same graph with some rows (every row of an undirected graph) in units 2^40 times larger: weights of order 1e-12.
+    probs_ is scale-free per row: a node of total weight 1e-12 has a membership row of sum 1, not a null row."""
+    rows = set(range(nr)) if kind == 'undirected' else {i for i in range(nr) if rng.random() < 0.5}
+    return [(i, j, w * 2.0 ** -40 if i in rows else w) for (i, j, w) in t]
+
+
+def random_case(rng, nmax, kinds=('undirected', 'directed', 'bipartite'), tiny=False):
     """A graph with at least one edge: (kind, nr, nc, triples, family)."""
+    if tiny and rng.random() < 0.2:
+        kind, nr, nc, t, fam = random_case(rng, nmax, kinds)
+        return kind, nr, nc, tiny_units(rng, kind, nr, t), fam + '_tiny'
     while True:
         kind = rng.choice(kinds)
         if kind == 'bipartite':
@@ -287,7 +297,7 @@ def part_post(ctx, impl, rng, quick):
     nmax = 12 if quick else 40
     cases = []
     for _ in range(n_cases):
-        kind, nr, nc, t, fam = random_case(rng, nmax)
+        kind, nr, nc, t, fam = random_case(rng, nmax, tiny=True)
         bip = kind == 'bipartite'
         n = nr + nc if bip else nr
         raw = random_labels(rng, n, contiguous=True)
@@ -536,7 +546,7 @@ def part_propagation(ctx, impl, rng, quick):
     site = SITE['propagation']
     cases = []
     for _ in range(n_cases):
-        kind, nr, nc, t, fam = random_case(rng, nmax)
+        kind, nr, nc, t, fam = random_case(rng, nmax, tiny=True)
         bip = nr != nc
         n = nr + nc if bip else nr
         raw = random_labels(rng, n)          # labels >= 0 with gaps and size ties, as the vote kernel leaves them
